@@ -232,7 +232,7 @@ class Check:
             json.dump({"Replace": repl}, f)
         return p
 
-    def go_run(self, pkg, test, cases, overlay_map, timeout=1800, env=None, outname="traces"):
+    def go_run(self, pkg, test, cases, overlay_map, timeout=900, env=None, outname="traces"):
         """cases: list of dicts {group,cfg,ops}. Returns dict group -> list of trace shard files."""
         ov = self.overlay(overlay_map)
         inp = os.path.join(self.work, outname + ".in.ndjson")
